@@ -75,6 +75,7 @@ type coaRequest struct {
 	packet *radius.Packet
 	src    *net.UDPAddr
 	client *coaClient
+	reply  []byte
 }
 
 type coaMutationWaiter struct {
@@ -96,6 +97,8 @@ type CoAComponent struct {
 
 	mutationResultSub events.Subscription
 	waiters           sync.Map
+
+	replays replayCache
 }
 
 func NewCoAComponent(deps component.Dependencies) (component.Component, error) {
@@ -293,6 +296,21 @@ func (c *CoAComponent) worker() {
 }
 
 func (c *CoAComponent) handleRequest(req *coaRequest) {
+	// Duplicate detection (RFC 5176 section 2.3): an authenticated request is
+	// executed once. A byte-identical copy - a retransmission, or a captured
+	// request replayed while its Event-Timestamp is still inside the window -
+	// is answered with the reply sent the first time and not executed again.
+	// The Request Authenticator covers the whole packet, so code, identifier
+	// and authenticator under the client's secret identify it.
+	key := string(req.client.secret) + "\x00" + string(req.raw[:20])
+	if cached, dup := c.replays.begin(key, replayCacheTTL()); dup {
+		if cached != nil {
+			c.conn.WriteToUDP(cached, req.src)
+		}
+		return
+	}
+	defer func() { c.replays.finish(key, req.reply) }()
+
 	switch req.packet.Code {
 	case codeCoARequest:
 		c.stats.IncrCoARequest(req.client.key)
@@ -309,13 +327,13 @@ func (c *CoAComponent) handleCoARequest(req *coaRequest) {
 	provider := GetProvider()
 	if provider == nil {
 		c.stats.IncrCoANAK(req.client.key)
-		c.sendResponse(req.src, req.client.secret, req.packet, codeCoANAK, errorCauseResourcesUnavail, req.raw)
+		req.reply = c.sendResponse(req.src, req.client.secret, req.packet, codeCoANAK, errorCauseResourcesUnavail, req.raw)
 		return
 	}
 
 	if hasServiceType(req.packet, 8) {
 		c.stats.IncrCoANAK(req.client.key)
-		c.sendResponse(req.src, req.client.secret, req.packet, codeCoANAK, errorCauseRequestInitiated, req.raw)
+		req.reply = c.sendResponse(req.src, req.client.secret, req.packet, codeCoANAK, errorCauseRequestInitiated, req.raw)
 		return
 	}
 
@@ -327,13 +345,13 @@ func (c *CoAComponent) handleCoARequest(req *coaRequest) {
 	target, errCause := resolveCoATarget(req.packet)
 	if errCause != 0 {
 		c.stats.IncrCoANAK(req.client.key)
-		c.sendResponse(req.src, req.client.secret, req.packet, codeCoANAK, errCause, req.raw)
+		req.reply = c.sendResponse(req.src, req.client.secret, req.packet, codeCoANAK, errCause, req.raw)
 		return
 	}
 
 	if err := validateNASIdentifier(req.packet, provider.cfg.NASIdentifier); err != nil {
 		c.stats.IncrCoANAK(req.client.key)
-		c.sendResponse(req.src, req.client.secret, req.packet, codeCoANAK, errorCauseNASIDMismatch, req.raw)
+		req.reply = c.sendResponse(req.src, req.client.secret, req.packet, codeCoANAK, errorCauseNASIDMismatch, req.raw)
 		return
 	}
 
@@ -342,7 +360,7 @@ func (c *CoAComponent) handleCoARequest(req *coaRequest) {
 
 	if len(attrs) == 0 {
 		c.stats.IncrCoANAK(req.client.key)
-		c.sendResponse(req.src, req.client.secret, req.packet, codeCoANAK, errorCauseMissingAttr, req.raw)
+		req.reply = c.sendResponse(req.src, req.client.secret, req.packet, codeCoANAK, errorCauseMissingAttr, req.raw)
 		return
 	}
 
@@ -352,7 +370,7 @@ func (c *CoAComponent) handleCoARequest(req *coaRequest) {
 	for k := range attrs {
 		if !subscriber.IsMutableAttribute(k) {
 			c.stats.IncrCoANAK(req.client.key)
-			c.sendResponse(req.src, req.client.secret, req.packet, codeCoANAK, errorCauseUnsupportedAttr, req.raw)
+			req.reply = c.sendResponse(req.src, req.client.secret, req.packet, codeCoANAK, errorCauseUnsupportedAttr, req.raw)
 			return
 		}
 	}
@@ -360,7 +378,7 @@ func (c *CoAComponent) handleCoARequest(req *coaRequest) {
 	result, err := c.mutateViaEventBus(target, attrs)
 	if err != nil {
 		c.stats.IncrCoANAK(req.client.key)
-		c.sendResponse(req.src, req.client.secret, req.packet, codeCoANAK, errorCauseResourcesUnavail, req.raw)
+		req.reply = c.sendResponse(req.src, req.client.secret, req.packet, codeCoANAK, errorCauseResourcesUnavail, req.raw)
 		return
 	}
 
@@ -373,25 +391,25 @@ func (c *CoAComponent) handleCoARequest(req *coaRequest) {
 		if ec == errorCauseSessionNotFound {
 			c.stats.IncrSessionNotFound(req.client.key)
 		}
-		c.sendResponse(req.src, req.client.secret, req.packet, codeCoANAK, ec, req.raw)
+		req.reply = c.sendResponse(req.src, req.client.secret, req.packet, codeCoANAK, ec, req.raw)
 		return
 	}
 
 	c.stats.IncrCoAACK(req.client.key)
-	c.sendResponse(req.src, req.client.secret, req.packet, codeCoAACK, 0, req.raw)
+	req.reply = c.sendResponse(req.src, req.client.secret, req.packet, codeCoAACK, 0, req.raw)
 }
 
 func (c *CoAComponent) handleDisconnectRequest(req *coaRequest) {
 	provider := GetProvider()
 	if provider == nil {
 		c.stats.IncrDisconnectNAK(req.client.key)
-		c.sendResponse(req.src, req.client.secret, req.packet, codeDisconnectNAK, errorCauseResourcesUnavail, req.raw)
+		req.reply = c.sendResponse(req.src, req.client.secret, req.packet, codeDisconnectNAK, errorCauseResourcesUnavail, req.raw)
 		return
 	}
 
 	if hasNonIdentificationAttrs(req.packet) {
 		c.stats.IncrDisconnectNAK(req.client.key)
-		c.sendResponse(req.src, req.client.secret, req.packet, codeDisconnectNAK, errorCauseInvalidRequest, req.raw)
+		req.reply = c.sendResponse(req.src, req.client.secret, req.packet, codeDisconnectNAK, errorCauseInvalidRequest, req.raw)
 		return
 	}
 
@@ -405,18 +423,18 @@ func (c *CoAComponent) handleDisconnectRequest(req *coaRequest) {
 	target, errCause := resolveCoATarget(req.packet)
 	if errCause != 0 {
 		c.stats.IncrDisconnectNAK(req.client.key)
-		c.sendResponse(req.src, req.client.secret, req.packet, codeDisconnectNAK, errCause, req.raw)
+		req.reply = c.sendResponse(req.src, req.client.secret, req.packet, codeDisconnectNAK, errCause, req.raw)
 		return
 	}
 
 	if err := validateNASIdentifier(req.packet, provider.cfg.NASIdentifier); err != nil {
 		c.stats.IncrDisconnectNAK(req.client.key)
-		c.sendResponse(req.src, req.client.secret, req.packet, codeDisconnectNAK, errorCauseNASIDMismatch, req.raw)
+		req.reply = c.sendResponse(req.src, req.client.secret, req.packet, codeDisconnectNAK, errorCauseNASIDMismatch, req.raw)
 		return
 	}
 
 	c.stats.IncrDisconnectACK(req.client.key)
-	c.sendResponse(req.src, req.client.secret, req.packet, codeDisconnectACK, errorCauseResidualRemoved, req.raw)
+	req.reply = c.sendResponse(req.src, req.client.secret, req.packet, codeDisconnectACK, errorCauseResidualRemoved, req.raw)
 
 	c.eventBus.Publish(events.TopicSubscriberTerminate, events.Event{
 		Source:    CoANamespace,
@@ -663,7 +681,7 @@ func validateMessageAuthenticator(raw []byte, secret []byte) bool {
 	return hmac.Equal(raw[offset:offset+16], h.Sum(nil))
 }
 
-func (c *CoAComponent) sendResponse(dst *net.UDPAddr, secret []byte, request *radius.Packet, code radius.Code, errorCause int, requestRaw []byte) {
+func (c *CoAComponent) sendResponse(dst *net.UDPAddr, secret []byte, request *radius.Packet, code radius.Code, errorCause int, requestRaw []byte) []byte {
 	resp := radius.New(code, secret)
 	resp.Identifier = request.Identifier
 
@@ -687,7 +705,7 @@ func (c *CoAComponent) sendResponse(dst *net.UDPAddr, secret []byte, request *ra
 	encoded, err := resp.Encode()
 	if err != nil {
 		c.logger.Warn("Failed to encode CoA response", "error", err)
-		return
+		return nil
 	}
 
 	copy(encoded[4:20], requestRaw[4:20])
@@ -714,4 +732,78 @@ func (c *CoAComponent) sendResponse(dst *net.UDPAddr, secret []byte, request *ra
 	copy(encoded[4:20], rh.Sum(nil))
 
 	c.conn.WriteToUDP(encoded, dst)
+	return encoded
+}
+
+const (
+	replayCacheMax        = 4096
+	replayCacheDefaultTTL = 10 * time.Minute
+)
+
+// replayCacheTTL is how long an executed request is remembered: long enough
+// for its Event-Timestamp to leave the replay window (a timestamp may be up
+// to window seconds ahead of the local clock).
+func replayCacheTTL() time.Duration {
+	if p := GetProvider(); p != nil && p.cfg.CoAReplayWindow > 0 {
+		return 2 * time.Duration(p.cfg.CoAReplayWindow) * time.Second
+	}
+	return replayCacheDefaultTTL
+}
+
+// replayCache remembers the requests that were handed to a worker and the
+// reply each of them got. The zero value is ready to use.
+type replayCache struct {
+	mu      sync.Mutex
+	entries map[string]*replayEntry
+	order   []string
+}
+
+type replayEntry struct {
+	reply   []byte
+	expires time.Time
+}
+
+// begin registers key. dup is true when key is already known; reply is then
+// the reply sent the first time (nil while the first copy is still being
+// handled).
+func (rc *replayCache) begin(key string, ttl time.Duration) (reply []byte, dup bool) {
+	now := time.Now()
+	rc.mu.Lock()
+	defer rc.mu.Unlock()
+	if rc.entries == nil {
+		rc.entries = make(map[string]*replayEntry)
+	}
+	for len(rc.order) > 0 {
+		e, ok := rc.entries[rc.order[0]]
+		if ok && len(rc.order) <= replayCacheMax && now.Before(e.expires) {
+			break
+		}
+		if ok {
+			delete(rc.entries, rc.order[0])
+		}
+		rc.order = rc.order[1:]
+	}
+	if e, ok := rc.entries[key]; ok {
+		return e.reply, true
+	}
+	rc.entries[key] = &replayEntry{expires: now.Add(ttl)}
+	rc.order = append(rc.order, key)
+	return nil, false
+}
+
+// finish records the reply of a handled request. A request that got no reply
+// (discarded by the replay window, unknown code) is forgotten again: it was
+// not executed.
+func (rc *replayCache) finish(key string, reply []byte) {
+	rc.mu.Lock()
+	defer rc.mu.Unlock()
+	e, ok := rc.entries[key]
+	if !ok {
+		return
+	}
+	if reply == nil {
+		delete(rc.entries, key)
+		return
+	}
+	e.reply = reply
 }
